@@ -159,7 +159,15 @@ pub struct World {
 }
 pub fn gen_world(rng: &mut Rng) -> World {
     let nk = rng.range(3, 8) as usize;
-    let keys = (0..nk).map(|_| Pubkey::new_from_array(rng.bytes(32).try_into().unwrap())).collect();
+    let mut keys: Vec<Pubkey> = (0..nk).map(|_| Pubkey::new_from_array(rng.bytes(32).try_into().unwrap())).collect();
+    // keys with a meaning of their own: the all-zero key (system program / Pubkey::default(),
+    // whose read-only non-signer config is 35 zero bytes), all-ones
+    if rng.chance(1, 3) {
+        keys[0] = Pubkey::default();
+    }
+    if rng.chance(1, 10) {
+        keys[1] = Pubkey::new_from_array([0xff; 32]);
+    }
     let ixl = match rng.below(6) {
         0 => 0,
         1 => rng.range(1, 8) as usize,
@@ -460,6 +468,42 @@ pub fn gen_scenario(rng: &mut Rng, precondition: bool) -> Scenario {
     Scenario { w, metas, initial, pool, cfgs, tlv }
 }
 
+/// a check-only scenario: configs may refer to any position of the provided list, including
+/// their own and later ones; the accepted list is found by iterating the independent resolver
+pub fn gen_forward_scenario(rng: &mut Rng) -> (Scenario, Vec<Acct>) {
+    let w = gen_world(rng);
+    let n0 = rng.below(4) as usize;
+    let nc = rng.range(1, 5) as usize;
+    let total = n0 + nc;
+    let mut accts: Vec<Acct> = (0..total).map(|_| gen_acct(rng, &w)).collect();
+    let dls: Vec<usize> = accts.iter().map(|a| a.data.len()).collect();
+    let cfgs: Vec<ExtraAccountMeta> = (0..nc).map(|_| gen_extra(rng, &w, total, &dls)).collect();
+    for _ in 0..6 {
+        let mut changed = false;
+        for i in 0..nc {
+            let view: Vec<(Pubkey, Option<Vec<u8>>)> = accts.iter().map(|a| (a.key, Some(a.data.clone()))).collect();
+            if let Some(m) = oracle_resolve(&cfgs[i], &w.ix, &w.pid, &view) {
+                let a = &mut accts[n0 + i];
+                if a.key != m.pubkey {
+                    changed = true;
+                }
+                a.key = m.pubkey;
+                a.signer = m.is_signer;
+                a.writable = m.is_writable;
+            }
+        }
+        if !changed {
+            break;
+        }
+    }
+    let size = ExtraAccountMetaList::size_of(cfgs.len()).unwrap();
+    let mut tlv = vec![0u8; size];
+    ExtraAccountMetaList::init::<MT0>(&mut tlv, &cfgs).unwrap();
+    let initial: Vec<Acct> = accts[..n0].to_vec();
+    let metas = initial.iter().map(|a| AccountMeta { pubkey: a.key, is_signer: a.signer, is_writable: a.writable }).collect();
+    (Scenario { w, metas, initial, pool: vec![], cfgs, tlv }, accts)
+}
+
 pub fn run_offchain(sc: &Scenario, pool: &[Acct]) -> Res<Vec<AccountMeta>> {
     let mut ix = Instruction { program_id: sc.w.pid, accounts: sc.metas.clone(), data: sc.w.ix.clone() };
     let r = catch(|| {
@@ -628,7 +672,9 @@ pub fn run_c07(ctx: &Ctx) -> Report {
     let n_coq = ctx.scale(350, 3500);
     let n_mon = ctx.scale(6000, 60000);
     for k in 0..(n_coq + n_mon) {
-        let sc = gen_scenario(&mut rng, true);
+        let forward = k % 3 == 2;
+        let (sc, fwd_accepted) = if forward { let (s, a) = gen_forward_scenario(&mut rng); (s, Some(a)) } else { (gen_scenario(&mut rng, true), None) };
+        rep.count(if forward { "scenario:any-reference" } else { "scenario:resolved-off-chain" });
         let to_coq_sc = k < n_coq && pda_count(&sc.cfgs) <= 2;
         // an accepted list: the instruction accounts after off-chain resolution
         let base: Vec<Acct> = match run_offchain(&sc, &sc.pool) {
@@ -646,6 +692,9 @@ pub fn run_c07(ctx: &Ctx) -> Report {
                 a.signer = c.is_signer.0 != 0;
                 a.writable = c.is_writable.0 != 0;
             }
+        }
+        if let Some(a) = fwd_accepted {
+            accepted = a;
         }
         let mut variants: Vec<(&str, Vec<Acct>)> = vec![("accepted", accepted.clone())];
         if !accepted.is_empty() {
